@@ -10,7 +10,7 @@ Recognised (anything else becomes `.unknown`, which no reference term contains, 
 * `iterate_tests(x)`: `try: s = iter(x)` / `except TypeError: yield x` / `else: for t in s: yield from iterate_tests(t)`.
 * `filter_by_ids(x, ids)`: a sequence of `if <test>:` cases and a final `return x`.  Tests: `hasattr(x, "filter_by_ids")` (also
   `safe_hasattr`), `hasattr(x, "id")`, `isinstance(x, unittest.TestSuite)`.  Actions: `return x.filter_by_ids(ids)`;
-  `if x.id() in ids: return x else: return unittest.TestSuite()` (also without the `else`) - the replacement must be a NEW empty
+  `if x.id() in ids: return x else: return unittest.TestSuite()` (also without the `else`, or turned around with `not in`) - the replacement must be a NEW empty
   suite built by that very call expression, a name bound elsewhere is `keepIfIdIn false`; the in-place block `filtered = []; for item
   in x: filtered.append(filter_by_ids(item, ids)); x._tests[:] = filtered` (also as a list comprehension), falling through to the final return.
 * `_flatten_tests(x, unpack_outer)`: `try: tests = iter(x)` / `except TypeError: return [(x.id(), x)]`; `if type(x) in (unittest.TestSuite,)
@@ -90,7 +90,18 @@ def filter_by_ids(fn):
             tail = nocomment(b[0].orelse) if b[0].orelse else b[1:]
             if (b[0].orelse and len(b) == 1 or not b[0].orelse) and len(tail) == 1 and isinstance(tail[0], ast.Return) and tail[0].value is not None:
                 return '(.keepIfIdIn %s)' % ('true' if u(tail[0].value) == 'unittest.TestSuite()' else 'false')
+        # the same with the test turned around: if x.id() not in ids: return <replacement>; return x
+        if len(b) == 2 and isinstance(b[0], ast.If) and not b[0].orelse and u(b[0].test) == '%s.id() not in %s' % (x, ids) and u(b[1]) == 'return ' + x:
+            r = nocomment(b[0].body)
+            if len(r) == 1 and isinstance(r[0], ast.Return) and r[0].value is not None:
+                return '(.keepIfIdIn %s)' % ('true' if u(r[0].value) == 'unittest.TestSuite()' else 'false')
         # in-place filtering of the children
+        if len(b) == 2 and isinstance(b[0], ast.Assign) and isinstance(b[0].targets[0], ast.Name) and isinstance(b[0].value, ast.ListComp) \
+                and u(b[1]) == '%s._tests[:] = %s' % (x, b[0].targets[0].id):
+            lc = b[0].value
+            if len(lc.generators) == 1 and not lc.generators[0].ifs and isinstance(lc.generators[0].target, ast.Name) and u(lc.generators[0].iter) == x \
+                    and u(lc.elt) == '%s(%s, %s)' % (fn.name, lc.generators[0].target.id, ids):
+                return '.filterChildrenInPlace'
         if len(b) == 3 and isinstance(b[0], ast.Assign) and u(b[0].value) == '[]' and isinstance(b[0].targets[0], ast.Name) and isinstance(b[1], ast.For):
             acc, loop = b[0].targets[0].id, b[1]
             if isinstance(loop.target, ast.Name) and u(loop.iter) == x and not loop.orelse and \
